@@ -105,6 +105,9 @@ class TimePointDumper(object):
         """
         split_format = parser_spec.REC_SPLIT_STRFTIME_DIRECTIVE.split(
             formatting_string)
+        if not timepoint.truncated and timepoint.get_is_week_date():
+            # strftime directives refer to the calendar year, not week year.
+            timepoint = timepoint.to_calendar_date()
         expression = ""
         properties = []
         for item in split_format:
